@@ -77,27 +77,29 @@ type Config struct {
 }
 
 type Task struct {
-	ID         int
-	Name       string
-	Site       int // spawn site (0 for harness clients)
-	wake       chan struct{}
-	state      int
-	Cost       int64 // virtual ns per step
-	Steps      int64
-	abort      bool
-	stepLimit  int64 // task-local step number at which the world is stopped (0 = none)
-	vDeadline  int64 // virtual time at which the world is stopped while this task runs (0 = none)
-	readyAt    int64 // global step at which it became runnable (oldest-first at quantum expiry)
-	sleepAt    int64 // requested wake time of the pending Sleep
-	lastSite   int   // site at which the task last gave up the baton
-	wokeAt     int64
-	MaxLate    int64 // largest lateness of a wake-up
-	MaxBusy    int64 // largest virtual time between a wake-up and the next Sleep call
-	Sleeps     int64
-	Started    int64
-	Exited     int64 // virtual time of exit, -1 while alive
-	Panic      any
-	PanicStack string
+	ID          int
+	Name        string
+	Site        int // spawn site (0 for harness clients)
+	wake        chan struct{}
+	state       int
+	Cost        int64 // virtual ns per step
+	Steps       int64
+	abort       bool
+	stepLimit   int64 // task-local step number at which the world is stopped (0 = none)
+	vDeadline   int64 // virtual time at which the world is stopped while this task runs (0 = none)
+	readyAt     int64 // global step at which it became runnable (oldest-first at quantum expiry)
+	sleepAt     int64 // requested wake time of the pending Sleep
+	lastSite    int   // site at which the task last gave up the baton
+	interrupted bool  // Fair: pre-empted by a timer wake-up, resumes first with the rest of its quantum
+	qRemain     int64
+	wokeAt      int64
+	MaxLate     int64 // largest lateness of a wake-up
+	MaxBusy     int64 // largest virtual time between a wake-up and the next Sleep call
+	Sleeps      int64
+	Started     int64
+	Exited      int64 // virtual time of exit, -1 while alive
+	Panic       any
+	PanicStack  string
 }
 
 type timer struct {
@@ -472,6 +474,11 @@ func (w *World) slow(t *Task, site int) {
 	}
 	t.state = stRunnable
 	t.readyAt = w.Steps
+	if timerDue && !preDue && !qDue && w.Cfg.Policy == Fair && w.Cfg.Quantum > 0 {
+		// an interrupt, not the end of the slice: the task continues its quantum once the woken task blocks again
+		t.interrupted = true
+		t.qRemain = w.qEnd - w.Steps
+	}
 	kind := 0
 	if preDue {
 		kind |= 1
@@ -613,6 +620,13 @@ func (w *World) dispatch(t *Task) {
 	t.state = stRunning
 	if w.Cfg.Quantum > 0 {
 		w.qEnd = w.Steps + w.Cfg.Quantum
+		if t.interrupted {
+			t.interrupted = false
+			if t.qRemain < 1 {
+				t.qRemain = 1
+			}
+			w.qEnd = w.Steps + t.qRemain
+		}
 	}
 	w.setNext(t)
 }
@@ -674,6 +688,13 @@ func (w *World) pick(from *Task, kind int) *Task {
 		}
 		if n == 1 {
 			return only
+		}
+		if w.Cfg.Policy == Fair {
+			for i := 0; i < w.ntasks; i++ {
+				if x := w.Tasks[i]; x.state == stRunnable && x.interrupted {
+					return x
+				}
+			}
 		}
 		if w.Cfg.Policy == Fair || kind&2 != 0 {
 			// round robin / starvation cap: the task that has waited longest, not the yielder
